@@ -10,6 +10,7 @@ import (
 	"fmt"
 	"os"
 	"path/filepath"
+	"runtime"
 	"strings"
 	"testing"
 	"time"
@@ -92,7 +93,9 @@ var c14NetTypes = []*dialer.NetworkType{
 
 // c14FixedSel: what fixed(i) designates, asked under every network type, strict and not, with and
 // without an excluded dialer (the first member): "the i-th member" must not depend on any of these.
-func c14FixedSel(grp *DialerGroup, index func(*dialer.Dialer) (int, bool)) string {
+func c14FixedSel(grp *DialerGroup, fixedIndex int, index func(*dialer.Dialer) (int, bool)) string {
+	// an error is classified by the SITUATION (the harness knows the index and the group size), not by
+	// its wording
 	one := func(d *dialer.Dialer, err error) string {
 		switch {
 		case err == nil:
@@ -100,10 +103,10 @@ func c14FixedSel(grp *DialerGroup, index func(*dialer.Dialer) (int, bool)) strin
 				return fmt.Sprint(idx)
 			}
 			return "?"
-		case strings.Contains(err.Error(), "out of range"):
-			return "range"
-		case strings.Contains(err.Error(), "no dialer in this group"):
+		case len(grp.Dialers) == 0:
 			return "empty"
+		case fixedIndex < 0 || fixedIndex >= len(grp.Dialers):
+			return "range"
 		}
 		return "err:" + c14x(err.Error())
 	}
@@ -152,7 +155,7 @@ func c14Group(p *c14Pool, g *config.Group) string {
 	sel := "-"
 	if policy.Policy == consts.DialerSelectionPolicy_Fixed {
 		pol = fmt.Sprintf("fixed:%d", policy.FixedIndex)
-		sel = c14FixedSel(grp, func(d *dialer.Dialer) (int, bool) { i, ok := p.index[d]; return i, ok })
+		sel = c14FixedSel(grp, policy.FixedIndex, func(d *dialer.Dialer) (int, bool) { i, ok := p.index[d]; return i, ok })
 	}
 	return fmt.Sprintf("ok pol=%s members=%s sel=%s", pol, c14Members(p, grp.Dialers, grp.dialersAnnotations), sel)
 }
@@ -198,31 +201,14 @@ func TestVerifC14(t *testing.T) {
 		if parserChanged != "" {
 			pc = c14x(parserChanged)
 		}
-		fmt.Fprintf(side, "fa valid=%v lens=%d/%d nodes=%d members=%d via=%s parserchanged=%s kwsubtag=%v\n", valid, len(g.Filter), len(g.FilterAnnotation), len(nodes), nmem, via, pc, c14OnlyKeywordOnSubtag(o, g))
+		fmt.Fprintf(side, "fa valid=%v lens=%d/%d nodes=%d members=%d via=%s parserchanged=%s kwsubtag=%v structonly=%v\n", valid, len(g.Filter), len(g.FilterAnnotation), len(nodes), nmem, via, pc, c14OnlyKeywordOnSubtag(o, g), c14StructOnly(g))
 		if valid && len(g.Filter) == len(g.FilterAnnotation) {
 			c14Discrim(stats, o, nodes, g, ev, nOps%3 == 0 && len(nodes) <= 64)
 		}
 		if !valid && len(g.Filter) == len(g.FilterAnnotation) {
 			// would per-node (lazy) evaluation have reached the invalid item?  Measures how many
 			// generated cases are sensitive to the defect fixed by 367c759.
-			reached := false
-		lazy:
-			for _, d := range pool.set.dialers {
-				for j, f := range g.Filter {
-					hit, err := pool.set.filterHit(d, f)
-					if err != nil {
-						reached = true
-						break lazy
-					}
-					if hit {
-						if _, err := dialer.NewAnnotation(g.FilterAnnotation[j]); err != nil {
-							reached = true
-							break lazy
-						}
-						break
-					}
-				}
-			}
+			reached := c14LazyReaches(o, nodes, g)
 			if reached {
 				stats.Inc("invalid_def.reached_by_per_node_evaluation")
 			} else {
@@ -245,7 +231,7 @@ func TestVerifC14(t *testing.T) {
 		c14PolicyTok(&pb, g.Policy)
 		gr := VRecover(func() string { return c14Group(pool, g) })
 		st.Emit("grp"+pb.String()+body.String(), gr)
-		fmt.Fprintf(side, "grp valid=%v lenient=%v kwsubtag=%v\n", valid, c14LenientPolicy(g.Policy), c14OnlyKeywordOnSubtag(o, g))
+		fmt.Fprintf(side, "grp valid=%v lenient=%v kwsubtag=%v structonly=%v\n", valid, c14LenientPolicy(g.Policy), c14OnlyKeywordOnSubtag(o, g), c14StructOnly(g))
 		c14GroupStats(stats, gr)
 	}
 
@@ -261,6 +247,14 @@ func TestVerifC14(t *testing.T) {
 	}
 	dp.Close()
 	ep.Close()
+	sn, sd := c14DirectedSlowRegex()
+	sp := c14NewPool(sn)
+	for _, d := range sd {
+		run(sn, sp, d, false)
+		stats.Inc("discrim.slow_regex_match_found_after_backtracking")
+	}
+	sp.Close()
+	_ = os.WriteFile(filepath.Join(VOutDir(), "c14.goversion"), []byte(runtime.Version()), 0o644)
 
 	// the mirrored time.ParseDuration against the real dialer.NewAnnotation (which calls the library)
 	nDur := 3000
